@@ -56,6 +56,10 @@ func (this *Addr) Deserialization(source *common.ZeroCopySource) error {
 		return io.ErrUnexpectedEOF
 	}
 
+	// every entry occupies 44 bytes: a count the payload cannot hold is malformed (and, cast to int, may be negative)
+	if count > source.Len()/44 {
+		return io.ErrUnexpectedEOF
+	}
 	for i := 0; i < int(count); i++ {
 		var addr comm.PeerAddr
 		addr.Time, eof = source.NextInt64()
